@@ -27,7 +27,7 @@ import (
 func TestMain(m *testing.M) { vt.Main(m) }
 
 type Step struct {
-	Kind   string `json:"kind"` // note detached finish after duppair resupd sreq sreqcancel
+	Kind   string `json:"kind"` // note detached finish after duppair resupd sreq sreqcancel cutreuse
 	S      int    `json:"s"`
 	R      int    `json:"r"`
 	T      int    `json:"t,omitempty"` // resupd: the session whose subscribed resource is reported as updated
@@ -63,7 +63,7 @@ func genScript(rt *rapid.T, race bool) Script {
 	}
 	n := rapid.IntRange(1, 40).Draw(rt, "n")
 	for i := 0; i < n; i++ {
-		st := Step{Kind: rapid.SampledFrom([]string{"note", "note", "note", "detached", "finish", "after", "duppair", "resupd", "sreq", "sreq", "sreqcancel"}).Draw(rt, "kind")}
+		st := Step{Kind: rapid.SampledFrom([]string{"note", "note", "note", "detached", "finish", "after", "duppair", "resupd", "sreq", "sreq", "sreqcancel", "cutreuse"}).Draw(rt, "kind")}
 		st.S = rapid.IntRange(0, s.Sessions-1).Draw(rt, "s")
 		st.R = rapid.IntRange(0, s.Calls[st.S]-1).Draw(rt, "r")
 		if st.Kind == "resupd" {
@@ -116,6 +116,7 @@ type callRec struct {
 	ex       *memhttp.Exchange
 	finished bool
 	cmds     chan cmd
+	cut      bool // the client dropped this exchange while the call was in flight
 }
 
 func runInBubble(s Script) (res vt.Result) {
@@ -469,7 +470,7 @@ func runInBubble(s Script) (res vt.Result) {
 			if resp > 1 {
 				res.Failf("step %d: the exchange of %s carries %d responses", step, c.tag, resp)
 			}
-			if c.finished && resp != 1 && c.ex.Status() < 400 {
+			if c.finished && resp != 1 && c.ex.Status() < 400 && !c.cut {
 				res.Failf("step %d: %s finished but its exchange carries %d responses (status %d)", step, c.tag, resp, c.ex.Status())
 			}
 		}
@@ -510,7 +511,7 @@ func runInBubble(s Script) (res vt.Result) {
 	}
 
 	var desc strings.Builder
-	dupN, sreqN := 0, 0
+	dupN, sreqN, reuses := 0, 0, 0
 	for i, st := range s.Steps {
 		if st.Kind == "duppair" {
 			if s.Stateless {
@@ -554,6 +555,47 @@ func runInBubble(s Script) (res vt.Result) {
 			synctest.Wait()
 			time.Sleep(10 * time.Millisecond)
 			synctest.Wait()
+			check(i)
+			if len(res.Violations) > 0 {
+				break
+			}
+			continue
+		}
+		if st.Kind == "cutreuse" {
+			// The client drops the exchange of a call that is still being handled and, without waiting for
+			// anything, sends a new call re-using its JSON-RPC id on the same session. The id is still in
+			// flight: the new POST is refused, or at least never receives the first call's messages.
+			c := byKey[[2]int{st.S, st.R}]
+			if s.Stateless || c.finished || c.cut || c.ex == nil || c.ex.Status() >= 400 {
+				continue
+			}
+			c.cut = true
+			c.ex.Cut(memhttp.ErrCut)
+			settle()
+			reuses++
+			c2 := &callRec{s: c.s, r: c.r, tag: fmt.Sprintf("%sreuse%d", c.tag, reuses)}
+			c2.ex = do("POST", fmt.Sprintf(`{"jsonrpc":"2.0","id":%d,"method":"tools/call","params":{"name":"emit","arguments":{"tag":%q},"_meta":{"progressToken":%q}}}`, c.r, c2.tag, c2.tag), sessionIDs[c.s])
+			if c2.ex == nil {
+				res.Failf("step %d: POST for %s produced no exchange", i, c2.tag)
+				break
+			}
+			calls = append(calls, c2)
+			if c2.ex.Status() < 400 {
+				res.Class("reuse_of_abandoned_inflight_id_accepted")
+			} else {
+				res.Class("reuse_of_abandoned_inflight_id_refused")
+			}
+			// the first handler goes on and answers; the second (if it runs at all) does too
+			chanOf(c.tag) <- cmd{kind: "note"}
+			c.finished = true
+			chanOf(c.tag) <- cmd{kind: "finish"}
+			chanOf(c2.tag) <- cmd{kind: "note"}
+			chanOf(c2.tag) <- cmd{kind: "finish"}
+			if c2.ex.Status() < 400 {
+				c2.cut = true // whether it is answered is C02's business; only what travels on it is judged
+			}
+			desc.WriteString("X")
+			settle()
 			check(i)
 			if len(res.Violations) > 0 {
 				break
